@@ -89,6 +89,7 @@ structure State where
   everBuf   : List Id := []               -- every message that has been in the buffer
   sends     : List Id := []               -- log of send attempts
   fails     : List Id := []               -- log of failed attempts
+  wire      : List (Id × Nat) := []       -- every attempt as it goes over the wire: (message, sequence number)
   owed      : List (Id × Id) := []        -- (d, s): d was buffered run data of s's run, undelivered when s was posted
   orderViol : Bool := false               -- some s was delivered while an owed d was not
   connRes   : Option Bool := none         -- outcome of the last connect attempt
@@ -152,7 +153,7 @@ def next (s : State) : Ev → Option State
   | .send id q =>
     if id ∈ s.fresh ∧ canPost s.st = true ∧ q = seqFor s id then
       some { s with fresh := s.fresh.erase id, inflight := s.inflight ++ [id], sends := s.sends ++ [id],
-                    owed := s.owed ++ owedFor s id, ctr := ctrAfter s id, seqs := seqsAfter s id }
+                    wire := s.wire ++ [(id, q)], owed := s.owed ++ owedFor s id, ctr := ctrAfter s id, seqs := seqsAfter s id }
     else none
   | .buf id q =>
     if id ∈ s.fresh ∧ mustBuffer s.st = true ∧ q = seqFor s id then
@@ -214,7 +215,8 @@ def next (s : State) : Ev → Option State
     else none
   | .postBatch true qs =>
     if s.batch ≠ [] ∧ s.batch.map (seqOf s) = qs.map some ∧ canPost s.st = true then
-      some { s with batch := [], inflight := s.inflight ++ s.batch, sends := s.sends ++ s.batch }
+      some { s with batch := [], inflight := s.inflight ++ s.batch, sends := s.sends ++ s.batch,
+                    wire := s.wire ++ s.batch.zip qs }
     else none
   | .postBatch false qs =>
     if s.batch ≠ [] ∧ s.batch.map (seqOf s) = qs.map some ∧ mustBuffer s.st = true then
